@@ -317,6 +317,93 @@ fn game_api(seed: &RSeed, allowed: &[Sq], len: u32, sink: &Sink) -> (u64, u64, u
     (games, third, reported)
 }
 
+/// Long cyclic games: White repeats a rook tour of `wc` moves, Black a rook tour of `bc` moves (no
+/// captures, no pawn moves), so that positions recur after long gaps (the whole position after
+/// lcm(wc, bc) full moves).  Played once on a bare board with explicit registration and once
+/// through the Game API; the reported count is compared with the model's multiset at every ply.
+fn long_cycles(sink: &Sink, thorough: bool) -> (u64, u64, u64) {
+    // the white king walks a closed loop of w squares near a1, the black king one of b squares near
+    // h8 (every square of a loop is visited once per round, so a position recurs exactly every
+    // lcm(w, b) full moves: 60-ply and 80-ply gaps, and 48 plies just under fifty)
+    let root = Pos::from_fen("7k/8/8/8/8/8/8/K7 w - - 0 1").unwrap();
+    let tour = |_len: usize, squares: &[&str]| -> Vec<(Sq, Sq)> {
+        let sq: Vec<Sq> = squares.iter().map(|x| parse_sq(x).unwrap()).collect();
+        (0..sq.len()).map(|i| (sq[i], sq[(i + 1) % sq.len()])).collect()
+    };
+    let wloops: [&[&str]; 3] = [&["a1", "b1", "b2"], &["a1", "b1", "b2", "a2"], &["a1", "b1", "c2", "b3", "a2"]];
+    let bloops: [&[&str]; 3] = [&["h8", "g8", "f8", "e8", "d8", "d7", "e7", "f7", "g7", "h7"], &["h8", "g8", "f8", "e8", "e7", "f7", "g7", "h7"], &["h8", "g8", "f8", "f7", "g7", "h7"]];
+    let (mut games, mut plies, mut long_gap) = (0u64, 0u64, 0u64);
+    let cycles: Vec<(usize, usize)> = if thorough { vec![(0, 0), (0, 1), (0, 2), (1, 0), (1, 1), (1, 2), (2, 0), (2, 1), (2, 2)] } else { vec![(0, 0), (0, 1), (2, 1), (1, 2)] };
+    for (wi, bi) in cycles {
+        let wt = tour(0, wloops[wi]);
+        let bt = tour(0, bloops[bi]);
+        let (wc, bc) = (wt.len(), bt.len());
+        for via_game in [false, true] {
+            games += 1;
+            let mut board = build_board(&root);
+            let mut game = if via_game { Some(Game::from_board(build_board(&root), 1)) } else { None };
+            if !via_game {
+                board.count_current_position();
+            }
+            let mut ms: FxHashMap<CKey, (u32, usize)> = FxHashMap::default();
+            ms.insert(canon(&root), (1, 0));
+            let mut p = root.clone();
+            let mut played: Vec<String> = Vec::new();
+            for ply in 0..96usize {
+                let (f, t) = if ply % 2 == 0 { wt[(ply / 2) % wt.len()] } else { bt[(ply / 2) % bt.len()] };
+                let m = match p.legal_moves().into_iter().find(|m| m.from == f && m.to == t) {
+                    Some(m) => m,
+                    None => break,
+                };
+                p = p.make(&m);
+                played.push(uci(&m));
+                plies += 1;
+                let e = ms.entry(canon(&p)).or_insert((0, ply + 1));
+                e.0 += 1;
+                let want = e.0;
+                let gap = ply + 1 - e.1;
+                e.1 = ply + 1;
+                if want >= 2 && gap >= 50 {
+                    long_gap += 1;
+                }
+                let got: u32 = if let Some(g) = game.as_mut() {
+                    if !matches!(guarded(|| g.apply_chess_move_by_from_to_coordinates(bb(f), bb(t))), Ok(Ok(_))) {
+                        break;
+                    }
+                    g.board_mut().toggle_turn();
+                    g.board().max_seen_position_count() as u32
+                } else {
+                    let im = impl_move_from_model(&m, p.stm.other());
+                    if !matches!(guarded(|| im.apply(&mut board)), Ok(Ok(()))) {
+                        break;
+                    }
+                    board.toggle_turn();
+                    guarded(|| board.count_current_position()).map(|c| c as u32).unwrap_or(999)
+                };
+                if got != want {
+                    sink.push(Violation {
+                        prop: "C17".into(),
+                        class: if got < want { "misses-a-true-recurrence(long-gap)".into() } else { "counts-a-different-position-as-recurrence(long-game)".into() },
+                        seed: root.to_fen(),
+                        path: played.clone(),
+                        detail: format!("cyclic game (white tour of {} moves, black tour of {}, {}): after ply {} the position {} has occurred {} time(s), previous occurrence {} plies earlier; reported {}", wc, bc, if via_game { "through the Game API" } else { "explicit registration" }, ply + 1, p.to_fen(), want, gap, got),
+                        extra: json!({"kind": "c17-cycle", "seed": "cycles"}),
+                    });
+                    break;
+                }
+                if want == 3 && p.halfmove < 100 {
+                    let verdict = if let Some(g) = game.as_mut() { guarded(|| g.check_game_over_for_current_turn()) } else { guarded(|| evaluate::game_ending(&mut board, &mut MoveGenerator::new(), color_of(p.stm))) };
+                    if !matches!(verdict, Ok(Some(GameEnding::Draw))) {
+                        sink.push(Violation { prop: "C17".into(), class: "no-draw-at-third-occurrence(long-game)".into(), seed: root.to_fen(), path: played.clone(), detail: format!("third occurrence of {} after ply {} not reported as a draw: {:?}", p.to_fen(), ply + 1, verdict), extra: json!({"kind": "c17-cycle", "seed": "cycles"}) });
+                    }
+                    break;
+                }
+            }
+        }
+    }
+    (games, plies, long_gap)
+}
+
 pub fn run(a: &Args) -> i32 {
     let mut rep = Report::new("C17", &a.tier, a.seed);
     let sink = Sink::new(6);
@@ -363,11 +450,21 @@ pub fn run(a: &Args) -> i32 {
         rep.traces += games;
         samples.push(json!({"seed": seed.name, "fen": seed.fen, "menu_squares": seed.squares, "forces": seed.why, "history_length": len, "histories": cx.histories, "max_multiplicity": cx.max_mult}));
     }
+    let (cg, cp, lg) = long_cycles(&sink, thorough);
+    rep.add("long_cyclic_games", cg);
+    rep.add("long_cyclic_game_plies", cp);
+    rep.add("recurrences_after_a_gap_of_50_plies_or_more", lg);
+    rep.states += cp;
+    rep.transitions += cp;
+    samples.push(json!({"long_cyclic_games": "white rook tour of w moves against black rook tour of b moves, up to 96 plies, explicit registration and Game API", "games": cg}));
+    rep.mandatory.push("recurrences_after_a_gap_of_50_plies_or_more".into());
     rep.samples = samples;
     rep.bounds = json!({"alphabet": "menu moves (moves between the listed squares, captures included) + undo", "history_length": len, "game_api_sequence_length": if thorough { "10" } else { "8 (9 for the irreversible-move seeds)" }});
     rep.rule = "state = operation history; every history over the alphabet up to the length bound is executed on one live board; counts, reported count and draw verdict compared with a multiset of full positions".into();
     rep.assumptions = vec!["positions are registered after the move is made and the turn has been passed (\"as it arises\")".into(), "multiplicities above 3 are not judged".into()];
+    let extra_mand = std::mem::take(&mut rep.mandatory);
     rep.mandatory = vec!["true_recurrences_registered".into(), "third_occurrences".into(), "recurrences_of_placement_only_(other_side_rights_or_ep)".into(), "game_api_third_occurrences_checked".into()];
+    rep.mandatory.extend(extra_mand);
     rep.finish(&sink)
 }
 
@@ -375,6 +472,24 @@ pub fn replay(v: &serde_json::Value) -> i32 {
     // re-run the seed's exploration restricted to the recorded history's length and look for the class
     let name = v["extra"]["seed"].as_str().unwrap_or("");
     let class = v["class"].as_str().unwrap_or("");
+    if v["extra"]["kind"].as_str() == Some("c17-cycle") {
+        let mut found = Vec::new();
+        for _ in 0..2 {
+            let sink = Sink::new(1000);
+            long_cycles(&sink, true);
+            found.push(sink.take().values().any(|(_, vs)| vs.iter().any(|x| x.class == class)));
+        }
+        if found[0] != found[1] {
+            eprintln!("MACHINERY-ERROR: replay is not deterministic");
+            return 2;
+        }
+        if found[0] {
+            println!("REPRODUCED property=C17 class={}", class);
+            return 1;
+        }
+        println!("NOT-REPRODUCED property=C17 class={}", class);
+        return 0;
+    }
     let seed = match SEEDS.iter().find(|s| s.name == name) {
         Some(s) => s,
         None => {
